@@ -66,6 +66,63 @@ def interleaved(rng, spellings):
     return out[:4]
 
 
+UNITS3 = {'PEO': '[$]COC[$]', 'PE': '[$]CC[$]', 'PP': '[$]CC(C)[$]', 'PVA': '[$]CC(O)[$]'}
+
+
+def three_level_case(rng):
+    """base graph -> coarse fragments whose beads carry annotations -> atoms: the annotations written on the beads of the
+    MIDDLE level must still be on them when that graph comes back as the coarse graph of the last step (and in what
+    resolve_all / resolve_iter hand out afterwards)"""
+    units = rng.sample(sorted(UNITS3), rng.randint(1, 3))
+    mids, expect = {}, {}
+    for mi in range(rng.randint(1, 2)):
+        beads = []
+        for bi in range(rng.randint(1, 3)):
+            t, attrs = A.random_annotation(rng, 'frag', p_reserved=0.7)
+            u = rng.choice(units)
+            beads.append('[#%s%s]' % (u, ';' + t if t else ''))
+            expect['M%d|%d' % (mi, bi)] = {k: v for k, v in attrs.items()}
+        mids['M%d' % mi] = '[$]' + beads[0] + ''.join(beads[1:]) + '[$]'
+    names = sorted(mids)
+    top = ''.join('[#%s]' % rng.choice(names) for _ in range(rng.randint(1, 4)))
+    string = '{' + top + '}.{' + ','.join('#%s=%s' % kv for kv in mids.items()) + '}.{' + ','.join('#%s=%s' % (u, UNITS3[u]) for u in units) + '}'
+    return dict(kind='three_level', string=string, expect=expect, driver=rng.choice(['resolve', 'resolve_iter', 'resolve_all']),
+                features=['three_levels_annotated_middle_beads'], nkeys=sum(len(v) for v in expect.values()))
+
+
+def run_three_level(case):
+    from cgsmiles import MoleculeResolver
+    contracts.clear()
+    viol, seen = [], 0
+    s = case['string']
+    try:
+        r = MoleculeResolver.from_string(s)
+        if case['driver'] == 'resolve':
+            r.resolve()
+            cg, aa = r.resolve()
+        elif case['driver'] == 'resolve_iter':
+            cg, aa = list(r.resolve_iter())[-1]
+        else:
+            cg, aa = r.resolve_all()
+        for n, d in cg.nodes(data=True):
+            m = d.get('mapping') or []
+            if len(m) != 1:
+                continue
+            exp = case['expect'].get('%s|%s' % (m[0][0], m[0][1]))
+            if exp is None:
+                continue
+            seen += 1
+            bad = {k: (d.get(k, '<missing>'), v) for k, v in exp.items() if d.get(k, '<missing>') != v or type(d.get(k)) is not type(v)}
+            if bad:
+                viol.append(V('c14.middle_level_annotation_lost', f'{s} [{case["driver"]}]: bead {n} of the coarse graph returned with the last level (copy of bead {m[0][1]} of {m[0][0]}): (found, written) {bad}'))
+                break
+    except Exception as err:
+        viol.append(V('c14.e2e_exception.' + type(err).__name__, f'{s} [{case["driver"]}] raised {type(err).__name__}: {err}'))
+    contracts.clear()
+    return {'violations': viol, 'nontrivial': seen > 0, 'cls': ('three_level', case['driver'], len(case['expect'])), 'sample': s,
+            'counters': {'annotated_middle_beads_checked': seen}}
+
+
 def e2e_case(rng):
     units = {}
     expect_atoms = {}
@@ -191,6 +248,8 @@ def cases(seed, tier, shard, nshards):
             if c is None:
                 continue
             c = dict(c, kind='shared_annotated')
+        elif rng.random() < 0.15:
+            c = three_level_case(rng)
         else:
             c = e2e_case(rng)
             if c is None:
@@ -228,6 +287,8 @@ def run(case):
         contracts.clear()
         return {'violations': viol, 'nontrivial': seen > 0, 'cls': ('shared_annotated', tuple(case['features'])), 'sample': txt,
                 'counters': {'annotated_copies_checked': seen}}
+    if case['kind'] == 'three_level':
+        return run_three_level(case)
     if case['kind'] == 'spell':
         exp = case['expect']
         first = None
